@@ -50,8 +50,9 @@ def structures(tier):
                     continue
                 sts.append({'kind': 'single', 'names': names, 'pad': p, 'm': m})
     sts.append({'kind': 'long', 'm': 20000 if tier == 'quick' else 70000, 'pad': 5})
-    for n1, n2 in ([(['a'], []), (['a', 'b'], ['c']), ([N19], ['a', 'a'])] if tier == 'quick' else
-                   [(['a'], []), (['a', 'b'], ['c']), ([N19], ['a', 'a']), ([], ['x']), (['a', 'b', 'c'], ['d', 'e'])]):
+    for n1, n2 in ([(['a'], []), (['a', 'b'], ['c']), ([N19], ['a', 'a']), ([N19], [N19[:16]]), (['abc'], ['ab'])] if tier == 'quick' else
+                   [(['a'], []), (['a', 'b'], ['c']), ([N19], ['a', 'a']), ([], ['x']), (['a', 'b', 'c'], ['d', 'e']),
+                    ([N19], [N19[:16]]), ([N19], [N19[:17]]), ([N19[:16]], [N19]), (['abc'], ['ab']), (['ab', N19], [N19[:18], 'abc'])]):
         sts.append({'kind': 'reparse', 'names1': n1, 'names2': n2, 'pad': 2, 'm': 1})
     return sts
 
@@ -183,7 +184,8 @@ def run(ctx, st):
         return run_long(ctx, st)
     threads = _mk_threads(ctx, st['names'])
     records = [ctx.bytes('rec%d' % i, 64) for i in range(st['m'])]
-    data = K.v2_file(threads, st['pad'], records)
+    # the two header fields the parser reads but does not use are free as well
+    data = K.v2_file(threads, st['pad'], records, is_64bit=ctx.int('hdr_is64', 32), tick_frequency=ctx.int('hdr_tick'))
     parser = _parser(ctx)
     evs, err = _parse(ctx, parser, data)
     ctx.observe('events', [[e.timestamp, e.tid, e.debugid, e.data] for e in evs])
